@@ -3,7 +3,10 @@
 Tables only: the HSTRP header, the complete graphs of HSTRPPacketType.as_bytes / from_bytes (64 flag
 combinations / 256 octets), the RRS opcode / result / service-type values, and three golden byte
 strings produced by the library's own serialisers (heartbeat, acknowledgement of a connect, the
-registration answer of rrs_confirm) against which the model's `Out.bytes` is decided in Props/C17.
+registration answer of rrs_confirm) against which the model's `Out.bytes` is decided in Props/C17.  Configuration: the constructor
+signature (parameter names, default of be_active_peer), the attributes of a new handler for both values of
+be_active_peer, and what one iteration of periodic_maintenance sends (datagram, destination host) for an
+active and a passive handler that is not connected / connected.
 """
 
 
@@ -68,5 +71,76 @@ def gen_hstrp_handler() -> str:
     req.payload = None
     out.append("/-- acknowledgement (as `hstrp_send_ack` edits it) of 32420024012383040001869f040102 (connect with two options, S/N 0x0123) -/")
     out.append(f"def goldenAck : List Nat := {lbytes(req.as_bytes())}")  # noqa: F821
+    # ---- configuration: constructor, new handler, periodic_maintenance
+    import asyncio
+    import inspect
+    import logging
+
+    from okdmr.dmrlib.protocols.hytera.hstrp_datagram_protocol import HSTRPDatagramProtocol
+    from okdmr.dmrlib.protocols.hytera.rrs_datagram_protocol import RRSDatagramProtocol
+
+    class _Rec(asyncio.DatagramTransport):
+        def __init__(self):
+            super().__init__()
+            self.sent = []
+
+        def sendto(self, data, addr=None):
+            self.sent.append((bytes(data), addr))
+
+        def is_closing(self):
+            return False
+
+        def close(self):
+            pass
+
+    async def _one_tick(h):
+        task = asyncio.ensure_future(h.periodic_maintenance())
+        await asyncio.sleep(0)
+        task.cancel()
+        try:
+            await task
+        except asyncio.CancelledError:
+            pass
+
+    out.append("/-- constructor parameters (after self) of HSTRPDatagramProtocol, RRSDatagramProtocol; `=` marks one with a default -/")
+    for cls, nm in ((HSTRPDatagramProtocol, "ctorParamsBase"), (RRSDatagramProtocol, "ctorParamsRrs")):
+        sig = inspect.signature(cls.__init__)
+        names = [n + ("" if q.default is inspect.Parameter.empty else "=") for n, q in list(sig.parameters.items())[1:]]
+        out.append(f"def {nm} : List String := [" + ", ".join(lstr(n) for n in names) + "]")  # noqa: F821
+    out.append("/-- default of the constructor parameter `be_active_peer` (both classes) -/")
+    dflt = {cls.__name__: inspect.signature(cls.__init__).parameters["be_active_peer"].default for cls in (HSTRPDatagramProtocol, RRSDatagramProtocol)}
+    assert all(isinstance(v, bool) for v in dflt.values()) and len(set(dflt.values())) == 1
+    out.append(f"def defaultActivePeer : Bool := {lbool(dflt['RRSDatagramProtocol'])}")  # noqa: F821
+    out.append("/-- instance attributes of a new handler (`vars(h)`), in creation order -/")
+    out.append("def attrsBase : List String := [" + ", ".join(lstr(n) for n in vars(HSTRPDatagramProtocol(port=1))) + "]")  # noqa: F821
+    out.append("def attrsRrs : List String := [" + ", ".join(lstr(n) for n in vars(RRSDatagramProtocol(port=1))) + "]")  # noqa: F821
+    rows = []
+    ticks = []
+    logging.disable(logging.CRITICAL)
+    loop = asyncio.new_event_loop()
+    try:
+        for cls in (HSTRPDatagramProtocol, RRSDatagramProtocol):
+            for active in (False, True):
+                h = cls(port=30123, be_active_peer=active)
+                reg = getattr(h, "registry", {})
+                rows.append((h.hstrp_connected is True, h.sn, len(reg), h.be_active_peer is True, h.port, h.transport is not None))
+                for connected in (False, True):
+                    t = _Rec()
+                    h.connection_made(t)
+                    h.hstrp_connected = connected
+                    loop.run_until_complete(_one_tick(h))
+                    assert all(a[1] == h.port for _, a in t.sent)
+                    ticks.append((active, connected, [(d, a[0]) for d, a in t.sent]))
+    finally:
+        loop.close()
+        logging.disable(logging.NOTSET)
+    out.append("/-- attributes of a new handler built with port 30123, for (class, be_active_peer) in (base, F), (base, T), (rrs, F), (rrs, T):")
+    out.append("(hstrp_connected, sn, len(registry) (0 for the base class), be_active_peer, port, transport is not None) -/")
+    out.append("def newHandler : List (Bool × Nat × Nat × Bool × Nat × Bool) := [" + ", ".join(
+        f"({lbool(c)}, {sn}, {n}, {lbool(a)}, {p}, {lbool(t)})" for c, sn, n, a, p, t in rows) + "]")  # noqa: F821
+    out.append("/-- one iteration of periodic_maintenance, for class x be_active_peer x hstrp_connected (in that order, False first):")
+    out.append("(be_active_peer, hstrp_connected, [(datagram, destination host)]); the destination port is always self.port -/")
+    out.append("def maintenance : List (Bool × Bool × List (List Nat × String)) := [" + ", ".join(
+        f"({lbool(a)}, {lbool(c)}, [" + ", ".join(f"({lbytes(d)}, {lstr(host)})" for d, host in sent) + "])" for a, c, sent in ticks) + "]")  # noqa: F821
     out.append("\nend Dmr.Gen.HstrpHandler\n")
     return "\n".join(out)
